@@ -1,9 +1,10 @@
 #!/bin/sh
-# usage: tools/confirm_seed.sh <Cxx> [suffix]   -- confirms a sub-agent's seeded change in its scratch worktree
+# usage: tools/confirm_seed.sh <Cxx> [suffix]   -- confirms a sub-agent's seeded change in its scratch worktree (/tmp/wt-<Cxx>, or /tmp/w2-<Cxx> when a suffix is given)
 # /tmp/wt-<Cxx> and, if all three facts hold, copies it to /verif/seeded/<Cxx><suffix>/
 set -u
 P="$1"; SUF="${2:-}"
 W=/tmp/wt-$P
+[ -n "$SUF" ] && W=/tmp/w2-$P
 cd "$W" || exit 2
 [ -f SEEDED/patch.diff ] || { echo "no patch.diff"; exit 2; }
 # git stash is shared between worktrees (agents ran concurrently): start from a clean src and apply the recorded patch
